@@ -15,7 +15,7 @@ def gen(rng, tier):
     # warm-up: every solver and representation first sees a ONE-state problem, so that anything a solver keeps
     # from its first call (sizes, LP dimensions, caches) is wrong for every later case
     for alg in ("ip", "wit", "ls"):
-        for repr_ in ("dense", "sparse", "generic", "mixed1", "mixed2"):
+        for repr_ in ("dense", "sparse", "generic", "mixed1", "mixed2", "byvalue"):
             m = gen_pomdp(rng, 1, 2, 2, gammas=(F(1, 2),))
             bs = gen_beliefs(rng, 1, 1)
             out.append("solve %s %s 2 %s %d %s" % (alg, repr_, fmt_pomdp(m), len(bs), " ".join(Qs(b) for b in bs)))
@@ -75,12 +75,12 @@ def gen(rng, tier):
             b = gen_beliefs(rng, S, 1)[0]
             maxr = max(max(row) for row in m["R"])
             maxR = rng.choice([maxr, maxr + 1, maxr + rng.choice([0, 2, 5])])
-            out.append("rtbss %s %d %s %s %s" % (rng.choice(["dense", "sparse", "generic", "mixed1", "mixed2"]), min(h + 1, 4), Qs([maxR]), fmt_pomdp(m), L(Qs(b).split())))
+            out.append("rtbss %s %d %s %s %s" % (rng.choice(["dense", "sparse", "generic", "mixed1", "mixed2", "byvalue"]), min(h + 1, 4), Qs([maxR]), fmt_pomdp(m), L(Qs(b).split())))
         else:
             alg = rng.choice(["ip", "ip", "wit", "wit", "wit", "ls", "ls"])
             if alg == "ls" and rng.random() < 0.35:     # four states: the faces of the simplex have faces of their own
                 S = 4; A = rng.choice([2, 3]); O = rng.choice([1, 2]); h = rng.randint(1, 2)
                 m = gen_pomdp(rng, S, A, O, gammas=(F(1, 2), F(3, 4)))
             bs = gen_beliefs(rng, S, 6)
-            out.append("solve %s %s %d %s %d %s" % (alg, rng.choice(["dense", "dense", "sparse", "generic", "mixed1", "mixed2"]), h, fmt_pomdp(m), len(bs), " ".join(Qs(b) for b in bs)))
+            out.append("solve %s %s %d %s %d %s" % (alg, rng.choice(["dense", "dense", "sparse", "generic", "mixed1", "mixed2", "byvalue"]), h, fmt_pomdp(m), len(bs), " ".join(Qs(b) for b in bs)))
     return out
